@@ -157,6 +157,7 @@ def run_case(res, case, sigs, attempt=0):
     import pydicom
     from pynetdicom2 import dsutils
     from pydicom import uid
+    t0 = time.monotonic()
     i, seed = case['index'], case['seed']
     r = rng(seed, 'c16', i)
     variant = VARIANTS[i % len(VARIANTS)]
@@ -221,7 +222,7 @@ def run_case(res, case, sigs, attempt=0):
                         return results if raise_after is None else failing_results(results, raise_after)
                 server = Server('FINDSCP', 0, supported_ts=[ts], max_pdu_length=server_max)
                 server.net = net
-                server.timeout = 5
+                server.timeout = 5 if not attempt else 30        # (re-runs are patient)
                 server.add_scp(sopclass.modality_work_list_scp if variant == 'mwl'
                                else sopclass.qr_find_scp)
                 if i % 4 == 1:
@@ -230,7 +231,7 @@ def run_case(res, case, sigs, attempt=0):
                 with tcpnet.serving(server):
                     remote = {'aet': 'FINDSCP', 'address': '127.0.0.1', 'port': server.port}
                     if variant == 'lib-scp-refpeer-scu':
-                        peer = tcpnet.RefPeer.connect(server.port)
+                        peer = tcpnet.RefPeer.connect(server.port, timeout=5.0 if not attempt else 30.0)
                         try:
                             reply = peer.associate([(1, sop.encode(), (ts.encode(),))], max_len=client_max)
                             peer.send_dimse(1, {R.TAG_AFFECTED_SOP_CLASS: sop, R.TAG_COMMAND_FIELD: 0x0020,
@@ -288,7 +289,7 @@ def run_case(res, case, sigs, attempt=0):
                     else:
                         client = applicationentity.ClientAE('FINDSCU', supported_ts=[ts],
                                                             max_pdu_length=client_max)
-                        client.timeout = 5
+                        client.timeout = 5 if not attempt else 30
                         client.add_scu(sopclass.modality_work_list_scu if variant == 'mwl'
                                        else sopclass.qr_find_scu)
                         with client.request_association(remote) as assoc:
@@ -335,11 +336,11 @@ def run_case(res, case, sigs, attempt=0):
                     if nxt['type'] == 5:
                         peer.send_pdu({'type': 6})
                     return nxt['type']
-                srv = tcpnet.PeerServer(handler)
+                srv = tcpnet.PeerServer(handler, timeout=5.0 if not attempt else 30.0)
                 try:
                     client = applicationentity.ClientAE('FINDSCU', supported_ts=[ts],
                                                         max_pdu_length=client_max)
-                    client.timeout = 5
+                    client.timeout = 5 if not attempt else 30
                     client.add_scu(sopclass.qr_find_scu)
                     remote = {'aet': 'REFSCP', 'address': '127.0.0.1', 'port': srv.port}
                     collected = []
@@ -347,7 +348,6 @@ def run_case(res, case, sigs, attempt=0):
                         with client.request_association(remote) as assoc:
                             service = assoc.get_scu(sop)
                             if hangs_up:
-                                import time
                                 time.sleep(0.3)
                             for d, s in service(query, msg_id):
                                 collected.append((enc(d) if d is not None else None, int(s)))
@@ -365,8 +365,10 @@ def run_case(res, case, sigs, attempt=0):
             error = exc
     tcpnet.wait_quiet(0, 3.0)
     sigs.add(net.signature())
-    if tcpnet.is_timeout(error) and attempt < 2:
-        # a time-out on a loaded machine is not a verdict: re-run alone, without delays
+    if error is not None and attempt < 2 and (tcpnet.is_timeout(error) or time.monotonic() - t0 >= 4.0):
+        # a failure on a loaded machine is not a verdict yet (one side's 5 s time-out reaches the other
+        # side as an abort or a closed connection): a failure that took that long is re-run alone, without
+        # delays and with patient time-outs; what persists is reported.  A quick failure is no time-out.
         res.count('flaky-timeouts')
         return run_case(res, case, sigs, attempt + 1)
     res.sample({'case': case, 'variant': variant, 'n': n, 'statuses': ['%04X' % s for _, s in matches][:6],
